@@ -2,13 +2,14 @@ package main
 
 import (
 	"fmt"
+	"math/rand"
 
 	"verif/idl"
 )
 
 // The lexical knobs of idl.Style, by name, so that a failing rendering can be
 // bisected one knob at a time against idl.DefaultStyle().
-var knobNames = []string{"FieldSep", "EnumSep", "FuncSep", "OpSep", "StmtEnd", "Indent", "Quote", "Gap", "Inline", "Blank", "BraceNL", "AngleWS", "TrailingNL", "CRLF", "Tabs"}
+var knobNames = []string{"FieldSep", "EnumSep", "FuncSep", "OpSep", "StmtEnd", "Indent", "Quote", "Gap", "Inline", "Blank", "BraceNL", "AngleWS", "TrailingNL", "CRLF", "Tabs", "ZeroPad"}
 
 func sepName(s string) string {
 	switch s {
@@ -68,6 +69,8 @@ func knobValue(s idl.Style, name string) string {
 		return onOff(s.CRLF)
 	case "Tabs":
 		return onOff(s.Tabs)
+	case "ZeroPad":
+		return fmt.Sprint(s.ZeroPad)
 	}
 	return "?"
 }
@@ -105,6 +108,8 @@ func copyKnob(dst *idl.Style, src idl.Style, name string) {
 		dst.CRLF = src.CRLF
 	case "Tabs":
 		dst.Tabs = src.Tabs
+	case "ZeroPad":
+		dst.ZeroPad = src.ZeroPad
 	}
 }
 
@@ -157,6 +162,8 @@ func singleKnobStyles() []idl.Style {
 	add(func(s *idl.Style) { s.TrailingNL = false })
 	add(func(s *idl.Style) { s.CRLF = true })
 	add(func(s *idl.Style) { s.Tabs = true })
+	add(func(s *idl.Style) { s.ZeroPad = 1 })
+	add(func(s *idl.Style) { s.ZeroPad = 2 })
 	return out
 }
 
@@ -175,4 +182,14 @@ func knobLabel(s idl.Style) string {
 		out += k + "=" + knobValue(s, k)
 	}
 	return out
+}
+
+// randomStyle draws every knob: idl.RandomStyle plus the knobs only C10 uses
+// (integers written with leading zeros).
+func randomStyle(rng *rand.Rand) idl.Style {
+	s := idl.RandomStyle(rng)
+	if rng.Intn(3) == 0 {
+		s.ZeroPad = 1 + rng.Intn(2)
+	}
+	return s
 }
